@@ -60,8 +60,11 @@ func placeholderNames(m *ast.MsgNode) string {
 	for _, c := range m.Body.Children() {
 		walk(c)
 	}
-	return strings.Join(names, ",")
+	return strings.Join(names, phSep)
 }
+
+// phSep separates the entries of placeholderNames (a character no template text contains).
+const phSep = "\x1f"
 
 // artefact compiles the files in the given order and returns a canonical text of everything observable.
 func artefact(c C13Case, order []int) (art string, imports int, suffixed bool) {
